@@ -4,6 +4,7 @@ use crate::nodes::*;
 use crate::process::{DefaultVisitor, NodeProcessor, NodeVisitor};
 use crate::rules::{
     Context, FlawlessRule, RuleConfiguration, RuleConfigurationError, RuleMetadata, RuleProperties,
+    RulePropertyValue,
 };
 
 #[derive(Debug, Default)]
@@ -597,7 +598,21 @@ impl RuleConfiguration for RemoveComments {
     }
 
     fn serialize_to_properties(&self) -> RuleProperties {
-        RuleProperties::new()
+        let mut properties = RuleProperties::new();
+
+        if !self.except.is_empty() {
+            properties.insert(
+                "except".to_owned(),
+                RulePropertyValue::StringList(
+                    self.except
+                        .iter()
+                        .map(|pattern| pattern.as_str().to_owned())
+                        .collect(),
+                ),
+            );
+        }
+
+        properties
     }
 
     fn set_metadata(&mut self, metadata: RuleMetadata) {
